@@ -399,6 +399,7 @@ func cmdCheck(args []string) int {
 		"discharged":               discharged,
 		"vcs":                      len(all),
 		"vacuity_checks":           vacuity,
+		"reachability":             map[string]interface{}{"obligations_checked": reachObls, "distinct_contexts": reachCtxs, "dead_contexts": reachDead, "solver_queries": reachQueries, "rule": "an obligation with no live path is not discharged; unsat = dead, anything else = live; goals `false` and generated safe.* obligations are exempt"},
 		"checker_cmd":              fmt.Sprintf("bin/govc check --tier %s %s  (VCs from go/ssa of /repo's working tree; solvers z3 5.1.0, z3 4.8.12, cvc5 1.0 raced per VC)", *tier, id),
 		"trusted_base":             trustedBase,
 		"functions_under_contract": funcs,
@@ -565,7 +566,7 @@ func writeReplay(dir, id string, o *oblResult, extra map[string]interface{}) str
 // live without a query. An obligation none of whose paths is live is reported as a vacuity failure; paths that
 // are individually dead are normal (a branch excluded by a callee's contract). Obligations whose goal is
 // `false` (a panic, a Fatal call that must be unreachable) are discharged BY a dead path and are skipped.
-var reachQueries int
+var reachQueries, reachObls, reachCtxs, reachDead int
 
 type reachCtx struct {
 	text   string
@@ -673,6 +674,12 @@ func reachAll(all []*VC, limit int) []*VC {
 			}
 		}
 	}
+	reachObls, reachCtxs = len(order), len(ctxs)
+	for _, rc := range ctxs {
+		if !rc.live {
+			reachDead++
+		}
+	}
 	if os.Getenv("GOVC_REACH_STATS") != "" {
 		nl := 0
 		for _, rc := range ctxs {
@@ -681,6 +688,11 @@ func reachAll(all []*VC, limit int) []*VC {
 			}
 		}
 		fmt.Fprintf(os.Stderr, "reach: %d obligations, %d distinct contexts (%d live), %d queries\n", len(order), len(ctxs), nl, reachQueries)
+		for _, rc := range ctxs {
+			if !rc.live {
+				fmt.Fprintf(os.Stderr, "reach: dead context: %s path=%s (first obligation %s) %s\n", rc.src.Fn, rc.src.Path, rc.src.Obl, rc.src.Pos)
+			}
+		}
 	}
 	var out []*VC
 	for _, o := range order {
